@@ -191,7 +191,7 @@ def valid_templates(draw):
     return {"src": gg.to_source(gg.Gen(r, prof).template()), "extra": extra}
 
 
-def campaign(ctx: core.Ctx, tier: str, shard: int, nshards: int) -> None:
+def _campaign(ctx: core.Ctx, tier: str, shard: int, nshards: int) -> None:
     quick = tier == "quick"
     if quick:
         _enumerate(ctx, shard, nshards, 3, 2)
@@ -202,7 +202,16 @@ def campaign(ctx: core.Ctx, tier: str, shard: int, nshards: int) -> None:
     core.drive(valid_templates(), ctx.run, n=(1500 if quick else 30000) // nshards, seed=seed + 1)
 
 
-def finish_kwargs(ctx: core.Ctx, tier: str) -> dict:
+def campaign(ctx: core.Ctx, tier: str, shard: int, nshards: int) -> None:
+    _campaign(ctx, tier, shard, nshards)
+    if tier == "thorough":
+        # coverage-guided stage: one libFuzzer campaign per shard with this module's evaluate() as the in-target oracle
+        from .. import fuzz
+
+        fuzz.campaign(ctx, PID, runs=40000, seed=core.sub_seed(ctx.seed, shard, 9))
+
+
+def _finish_kwargs(ctx: core.Ctx, tier: str) -> dict:
     return {
         "rule": (
             f"All sequences of <= {3 if tier == 'quick' else 4} tag tokens"
@@ -218,3 +227,13 @@ def finish_kwargs(ctx: core.Ctx, tier: str) -> dict:
         "case_predicates": KNOWN_PREDICATES,
         "assumptions": ["'parses' means Environment.from_string succeeds in Mode.STRICT in the same environment"],
     }
+
+
+def finish_kwargs(ctx: core.Ctx, tier: str) -> dict:
+    kw = _finish_kwargs(ctx, tier)
+    if tier == "thorough":
+        from .. import fuzz
+
+        kw["rule"] += fuzz.RULE_NOTE
+        kw.setdefault("assumptions", []).append(fuzz.ASSUMPTION)
+    return kw
